@@ -13,7 +13,9 @@ import (
 	"sync"
 )
 
-const verifRoot = "/verif"
+// verifRoot is the directory of the verification framework (spec/, evidence/, replays/, .scratch/).
+// bin/check sets VERIF_HOME to the checkout it runs from.
+var verifRoot = envOr("VERIF_HOME", "/verif")
 
 // Ctx carries everything one check run needs.
 type Ctx struct {
